@@ -1000,6 +1000,22 @@ def lean_event(ev: Dict[str, Any]) -> List[Any]:
     return [t]
 
 
+def _plan_can_complete(exp: Dict[str, Any]) -> bool:
+    """independent scheduler simulation on the exported plan: start every step whose required uuids are all produced, until nothing changes"""
+    steps = exp["steps"]
+    done: set = set()
+    finished: set = set()
+    progress = True
+    while progress:
+        progress = False
+        for i, st in enumerate(steps):
+            if i not in done and set(st["req"]) <= finished:
+                done.add(i)
+                finished |= set(st["outs"])
+                progress = True
+    return len(done) == len(steps)
+
+
 def e2e_suite(ctx: Ctx, n: int) -> None:
     from harness import schedlib as S
 
@@ -1073,6 +1089,11 @@ def e2e_suite(ctx: Ctx, n: int) -> None:
                          e2e_outcome="timeout" if rr.timed_out else ("raise" if rr.error else "return"))  # fmt: skip
                 if rr.timed_out:
                     timeouts += 1
+                    # a run that spins because the accepted plan has a wait-for cycle is C04's subject (known findings there: accepted plans
+                    # that can never complete); it says nothing about leftovers. Only a spinning run of a plan that CAN complete is reported here.
+                    if not _plan_can_complete(S.export_plan(sess)):
+                        ctx.tag("life_e2e_spin_on_ill_ranked_plan", mode)
+                        continue
                     ctx.violation("life_e2e", case, f"{mode} run did not end within 15 s", None, None)
                     if timeouts >= 2:
                         break
